@@ -118,6 +118,8 @@ EXPORT errno_t _ctime_s_chk(char *dest, rsize_t dmax, const time_t *timer,
 
     CHK_DEST_NULL("ctime_s")
     if (unlikely(dmax < 26)) {
+        if (dmax > 0)
+            *dest = '\0';
         invoke_safe_str_constraint_handler("ctime_s: dmax is too small", dest,
                                            ESLEMIN);
         return ESLEMIN;
@@ -135,19 +137,16 @@ EXPORT errno_t _ctime_s_chk(char *dest, rsize_t dmax, const time_t *timer,
     }
 
     if (unlikely(timer == NULL)) {
-        invoke_safe_str_constraint_handler("ctime_s: timer is null", NULL,
-                                           ESNULLP);
+        handle_error(dest, dmax, "ctime_s: timer is null", ESNULLP);
         return ESNULLP;
     }
     if (unlikely(*timer < 0)) {
-        invoke_safe_str_constraint_handler("ctime_s: timer is <0", NULL,
-                                           ESLEMIN);
+        handle_error(dest, dmax, "ctime_s: timer is <0", ESLEMIN);
         return ESLEMIN;
     }
     /* 32bit have a lower limit: -Werror=type-limits (long) */
     if (unlikely(*timer >= MAX_TIME_T_STR)) { /* year 10000 */
-        invoke_safe_str_constraint_handler("ctime_s: timer is too large", NULL,
-                                           ESLEMAX);
+        handle_error(dest, dmax, "ctime_s: timer is too large", ESLEMAX);
         return ESLEMAX;
     }
 
@@ -165,8 +164,14 @@ EXPORT errno_t _ctime_s_chk(char *dest, rsize_t dmax, const time_t *timer,
     } else {
         char tmp[120];
         buf = ctime_r(timer, (char *)&tmp);
-        if (!buf)
+        if (!buf) {
+#ifdef SAFECLIB_STR_NULL_SLACK
+            memset(dest, 0, dmax);
+#else
+            *dest = '\0';
+#endif
             return -1;
+        }
         len = strlen(buf);
         if (likely(len < dmax)) {
             strcpy_s(dest, dmax, buf);
